@@ -39,6 +39,19 @@ def run(ck):
     else:
         ck.violation("L1b.via-list", "L1b|via-list-def", cih.where(), "the string searched for ThisCache2 is no longer defined as req_hdr->getList(Http::HdrType::VIA)")
 
+    ck.rule("L1c MONOTONE FLAG: every write of RequestFlags::loopDetected in the program stores the constant true (a detected loop is never un-detected by a later header)")
+    ws = facts.writers("RequestFlags::loopDetected")
+    ck.need(len(ws) >= 2, "C63: writers of RequestFlags::loopDetected not found (%d)" % len(ws))
+    for (n_, f_, l_, op_, cv_) in ws:
+        where = "%s:%d" % (f_.replace("/repo/", "").replace(facts.all_units[0].split("/src/")[0] + "/", ""), l_)
+        if op_ == "=" and cv_ == 1:
+            ck.ok("L1c.loop-flag-monotone", where, "%s raises loopDetected" % n_)
+        elif op_ == "init":
+            ck.ok("L1c.loop-flag-monotone", where, "%s initialises loopDetected" % n_, nontrivial=False)
+        else:
+            ck.violation("L1c.loop-flag-monotone", "L1c|loopDetected-write|%s" % n_, where,
+                         "%s writes loopDetected with a non-constant/non-true value (%s %s): an earlier Via loop verdict can be overwritten" % (n_, op_, cv_))
+
     ck.rule("L2 clientProcessRequest: doCallouts() requires mustReplyToOptions false; it is defined from method==OPTIONS && getInt64(MAX_FORWARDS)==0; "
             "clientGetMoreData: RESPONSE(TRACE && getInt64(MAX_FORWARDS)==0 -> traceReply()), doGetMoreData/identifyStoreObject unreachable on that path")
     cpr = facts.fn("clientProcessRequest")
